@@ -47,6 +47,11 @@ CHECKS = {
             "Generated point/curve/surface geometries (unreferenced vertices, repeated and unordered cells by construction) with data of every kind, then sequences of add/assign (short, exact, long), remove_vertices/remove_cells (unsorted, repeated, first/last/all-but-one), masked copies and re-opens; after every step every data array must have one entry per element, each survivor keeps the value of its provenance tag, cells stay in range and join the same coordinates; a raising operation must leave a state equal to the pre- or post-state.",
             "Index lists are reduced modulo the element count (out-of-range indices are a documented refusal, not generated); at least one vertex is always kept.",
             "DESIGN.md 3/C07"),
+    "C04": ("concat", "exploration",
+            "model-based stateful PBT over drillhole groups (reference model hole->table->data) + raw tiling / attribute-record predicate over an independent h5py reader, both format encodings",
+            "Generated histories of add / update / rename / remove (workspace or parent) / copy / re-open over holes that share data names; every hole and data set must read back the model values, the group-wide table must equal the per-hole rows, and after each close every concatenated array must be exactly tiled by its index rows with exactly one attribute record per live hole, data set and property group.",
+            "Values are float32-representable; one kind per data name and group (one concatenated array per label); duplicate names in a hole are a documented refusal and not generated.",
+            "DESIGN.md 3/C04"),
 }
 
 NOT_APPLICABLE = {}
@@ -91,6 +96,8 @@ def main():
         "engines": [
             {"name": "tree", "path": "vp/engines/tree.py", "serves_properties": ["C01", "C02", "C05", "C06", "C09", "C12"],
              "kind_free_text": "Hypothesis strategy for operation programs + interpreter with reference model over groups/objects/data/property groups"},
+            {"name": "concat", "path": "vp/engines/concat.py", "serves_properties": ["C04"],
+             "kind_free_text": "drillhole-group histories with a hole/table/data reference model and a raw tiling predicate"},
             {"name": "geomdata", "path": "vp/props/c07.py", "serves_properties": ["C07"],
              "kind_free_text": "geometry + data operation sequences with a tagged reference model"},
             {"name": "values", "path": "vp/engines/values.py", "serves_properties": ["C03", "C08"],
